@@ -3,10 +3,12 @@ package main
 import (
 	"fmt"
 	"io"
+	iofs "io/fs"
 	"math/rand"
 	"net/http"
 	"net/http/httptest"
 	"strings"
+	"testing/fstest"
 
 	"github.com/labstack/echo/v4"
 )
@@ -53,6 +55,13 @@ func genC04(rng *rand.Rand, n int, emit func(Case), dist map[string]int) {
 	for it := 0; it < n; {
 		e := echo.New()
 		e.Logger.SetOutput(io.Discard)
+		e.Filesystem = c04FS(func(h int) {
+			if handlerSeen {
+				return // the directory handler stats the file before it opens it
+			}
+			trace = append(trace, L(I(2), I(h), I(0)))
+			handlerSeen = true
+		})
 		mwID := 0
 		type mwDesc struct {
 			id, kind int
@@ -166,6 +175,51 @@ func genC04(rng *rand.Rand, n int, emit func(Case), dist map[string]int) {
 				}
 				ops = append(ops, L(I(5), I(owner), S("GET"), S(path), I(h), I(herr), L(sxs...)), L(I(5), I(owner), S("POST"), S(path), I(h), I(herr), L(sxs...)))
 				dist["match_registrations"]++
+				return
+			}
+			if rng.Intn(8) == 0 {
+				// the file-serving registration helpers: the handler is echo's own, seen through the file system it opens
+				herr = 0
+				root := fmt.Sprintf("h%d", h)
+				sub := echo.MustSubFS(e.Filesystem, root)
+				variant := rng.Intn(4)
+				if variant < 2 || variant == 2 && owner >= 0 {
+					fs, sxs, ids = nil, nil, nil // these helpers take no route-level middleware
+				}
+				if variant < 2 {
+					path = []string{"/s", "/files/", "/"}[rng.Intn(3)]
+				}
+				switch {
+				case owner < 0 && variant == 0:
+					e.Static(path, root)
+				case owner < 0 && variant == 1:
+					e.StaticFS(path, sub)
+				case owner < 0 && variant == 2:
+					e.File(path, root+"/f.txt", fs...)
+				case owner < 0:
+					e.FileFS(path, "f.txt", sub, fs...)
+				case variant == 0:
+					groups[owner].g.Static(path, root)
+				case variant == 1:
+					groups[owner].g.StaticFS(path, sub)
+				case variant == 2:
+					groups[owner].g.File(path, root+"/f.txt")
+				default:
+					groups[owner].g.FileFS(path, "f.txt", sub, fs...)
+				}
+				if variant < 2 {
+					path += "*"
+				}
+				if owner < 0 {
+					routes[h] = routeInfo{owner: -1, chain: ids, full: path}
+					fullPaths = append(fullPaths, path)
+				} else {
+					g := groups[owner]
+					routes[h] = routeInfo{owner: owner, chain: append(append([]int(nil), g.mws...), ids...), full: g.prefix + path, host: g.host}
+					fullPaths = append(fullPaths, g.prefix+path)
+				}
+				ops = append(ops, L(I(5), I(owner), S("GET"), S(path), I(h), I(0), L(sxs...)))
+				dist[fmt.Sprintf("file_helper_variant_%d", variant)]++
 				return
 			}
 			if owner < 0 {
@@ -536,4 +590,18 @@ func c04PatMatches(pat, p string) bool {
 		}
 	}
 	return len(ps) == len(xs)
+}
+
+// c04FS: a file system in which every name "h<id>/..." is a small regular file; opening it reports the id
+// (the handlers of Static, StaticFS, File and FileFS are echo's own and are observed through this)
+type c04FS func(h int)
+
+var c04Files = fstest.MapFS{"f": &fstest.MapFile{Data: []byte("static")}}
+
+func (f c04FS) Open(name string) (iofs.File, error) {
+	var h int
+	if n, _ := fmt.Sscanf(name, "h%d", &h); n == 1 {
+		f(h)
+	}
+	return c04Files.Open("f")
 }
